@@ -28,7 +28,7 @@ def rebuild(st):
     return xr.Dataset(dv, coords=coords, attrs=dict(st["attrs"]))
 
 
-OBSERVED = ["hs", "hrms", "tm01", "tm02", "dm", "dspr", "dp", "dpm", "tp", "oned", "momf", "uss", "crsd",
+OBSERVED = ["ptm1", "ptm2", "ptm1", "ptm2", "dpspr_zero", "hs", "hrms", "tm01", "tm02", "dm", "dspr", "dp", "dpm", "tp", "oned", "momf", "uss", "crsd",
             "stats", "smooth", "interp", "rotate", "ptm3", "ptm4", "to_energy", "swe", "hmax", "split"]
 
 
@@ -50,6 +50,15 @@ def observe(obj, obs):
         r = acc.momf(kw["n"])
     elif name == "split":
         r = acc.split(fmin=kw["fmin"], fmax=kw["fmax"])
+    elif name in ("ptm1", "ptm2"):
+        da = obj["efth"] if isinstance(obj, xr.Dataset) else obj
+        r = getattr(da.spec.partition, name)(xr.DataArray(14.0), xr.DataArray(200.0), xr.DataArray(30.0), swells=2)
+    elif name == "dpspr_zero":
+        # an operation that merely emits a RuntimeWarning (0/0 on an all-zero spectrum): it must
+        # return the same thing whatever ran before (process-global warning filters)
+        da = obj["efth"] if isinstance(obj, xr.Dataset) else obj
+        z = xr.concat([da, da * 0.0], dim="zz")
+        r = z.spec.dpspr()
     elif name in ("ptm3", "ptm4"):
         da = obj["efth"] if isinstance(obj, xr.Dataset) else obj
         if name == "ptm3":
